@@ -49,6 +49,22 @@ C07_CASES = [
      'fn foo(s: []i32)\n{\n\tvar x: i32 = 1;\n\tvar p: &i32 = &x;\n\t&p = s;\n}\n', 'reject',
      'assignment of an array view []i32 to a pointer variable: an ill-typed program is rejected with an error, not by a failed assertion'),
 ] + [
+    (what, 'fn foo(p: &i32)\n{\n}\n\nfn bar(p: &&i32)\n{\n}\n\nfn parr(a: &[]i32)\n{\n}\n\nfn main()\n{\n\tvar x: i32 = 1;\n\tvar p: &i32 = &x;\n\tvar q: &&i32 = &&p;\n'
+           '\tvar a: [3]i32 = [1, 2, 3];\n\t%s\n}\n' % stmt, exp, why)
+    for what, stmt, exp, why in [
+        ('two excess addresses on an argument', 'foo(&&&x);', 'reject', 'an argument &&&x for a parameter of type &i32'),
+        ('excess address on a pointer-to-pointer argument', 'bar(&&&p);', 'reject', 'an argument &&&p (p: &i32) for a parameter of type &&i32'),
+        ('excess address in an initial value', 'var r: &i32 = &&x;', 'reject', 'a declaration of type &i32 initialised with &&x'),
+        ('excess address in an assigned value', '&p = &&x;', 'reject', 'the pointer p: &i32 assigned &&x'),
+        ('excess address on an array argument', 'parr(&&a);', 'reject', 'an argument &&a (a: [3]i32) for a parameter of type &[]i32'),
+        ('address of a variable as an argument', 'foo(&x);', 'accept', 'the address of an i32 variable for a parameter of type &i32'),
+        ('a pointer variable as an argument', 'foo(&p);', 'accept', 'the pointer p: &i32 itself for a parameter of type &i32'),
+        ('address of a pointer variable as an argument', 'bar(&&p);', 'accept', 'the address of the pointer p: &i32 for a parameter of type &&i32'),
+        ('a pointer-to-pointer variable as an argument', 'bar(&&q);', 'accept', 'the pointer q: &&i32 itself for a parameter of type &&i32'),
+        ('address of an array as an argument', 'parr(&a);', 'accept', 'the address of a [3]i32 for a parameter of type &[]i32'),
+        ('missing address on a pointer-to-pointer argument', 'bar(&p);', 'reject:513', 'the pointer p: &i32 for a parameter of type &&i32'),
+    ]
+] + [
     (what, 'struct S\n{\n\tarr: [4]i32,\n\tp: &i32,\n}\n\nfn foo(sl: []i32, s: S)\n{\n\tvar t: S = s;\n\t%s\n}\n' % stmt, exp, why)
     for what, stmt, exp, why in [
         ('array view assigned to an element of an array member', 't.arr[0] = sl;', 'reject:504', 'assignment of an array view to an element of a [4]i32 member'),
